@@ -230,6 +230,34 @@ def verdicts(chk: Check) -> None:
     chk.ob('DOM-verdict-not-dropped', vd, ok, 'values left over for a non-dynamic namespace are an error', kind='undeclared-rejected')
 
 
+def nested_mappings_copied_before_recursion(chk: Check) -> bool:
+    """On every path through PortNamespace.pre_process, what is handed to the recursive pre_process is a copy (``dict(x)`` / ``copy.copy``) whenever it is a mapping at all."""
+    from ..decisions import paths_under as _pu, value_on_path as _vop
+    prog = chk.prog
+    pp = prog.func('ports.PortNamespace.pre_process')
+    ff = chk.ctx.facts.analyse(pp)
+    cfg = ff.cfg
+    recs = [m for m in cfg.nodes if any(isinstance(c, ast.Call) and last_name(c) == 'pre_process' for c in (walk_shallow(m.expr()) if m.expr() is not None else []))]
+    if not recs:
+        return False
+    try:
+        for path in _pu(ff, {}):
+            for i, m in enumerate(path):
+                if m in recs:
+                    call = [c for c in walk_shallow(m.expr()) if isinstance(c, ast.Call) and last_name(c) == 'pre_process'][0]
+                    arg = _vop(path, i, call.args[0]) if call.args else None
+                    if arg is None:
+                        return False
+                    copied = isinstance(arg, ast.Call) and (norm(arg.func) in ('dict', 'copy.copy', 'copy.deepcopy') or last_name(arg) in ('copy', 'deepcopy'))
+                    fresh = isinstance(arg, (ast.Dict, ast.DictComp))
+                    not_mapping = any(t.kind == 'test' and 'Mapping' in norm(t.ast.test) and path[j + 1] in [s_ for s_, l_ in t.succ if l_ == 'false'] for j, t in enumerate(path[:i]) if j + 1 < len(path))
+                    if not (copied or fresh or not_mapping):
+                        return False
+    except RuntimeError:
+        return False
+    return True
+
+
 # ---------------------------------------------------------------------- 2. caller's data untouched
 def callers_data(chk: Check) -> None:
     prog = chk.prog
@@ -272,11 +300,20 @@ def callers_data(chk: Check) -> None:
         for n in ast.walk(oc.node):
             if isinstance(n, ast.If) and any(any(v_ is x for x in ast.walk(n)) for v_ in srcs):
                 tests.extend(x for x in ast.walk(n.test))
-        ok = bool(rebuilt) and all(inside(r) or any(r is t for t in tests) for r in refs)
-    chk.ob('PROV-raw-inputs-untouched', oc, ok, 'the mapping handed to pre_process (which fills in defaults IN PLACE) is a recursive rebuild of the raw inputs, never the raw '
+        # ... or, at the TOP level, of any construction of a new dict from it (``dict(raw)``, ``{**raw}``, a dict comprehension over its items): pre_process assigns into
+        # the mapping it is given, and into nothing below it -- it copies every nested mapping before recursing (checked below)
+        fresh_top = [c for c in ast.walk(src) if (isinstance(c, ast.Call) and norm(c.func) in ('dict', 'copy.copy', 'copy.deepcopy')) or isinstance(c, (ast.DictComp, ast.Dict))]
+        inside_top = lambda r: any(any(x is r for x in ast.walk(c)) for c in fresh_top)
+        every_value_fresh = all(isinstance(v_, (ast.Dict, ast.DictComp)) or (isinstance(v_, ast.Call) and (norm(v_.func) in ('dict', 'copy.copy', 'copy.deepcopy') or v_ in rebuilt))
+                                or (isinstance(v_, ast.IfExp) and all(isinstance(b_, (ast.Dict, ast.DictComp)) or (isinstance(b_, ast.Call) and (norm(b_.func) in ('dict', 'copy.copy', 'copy.deepcopy') or b_ in rebuilt))
+                                                                      for b_ in (v_.body, v_.orelse)))
+                                for v_ in srcs)
+        ok = (bool(rebuilt) or every_value_fresh) and all(inside(r) or inside_top(r) or any(r is t for t in tests) for r in refs)
+    chk.ob('PROV-raw-inputs-untouched', oc, ok, 'the mapping handed to pre_process (which fills in defaults IN PLACE) is a newly built dict, never the raw '
            'inputs or the caller\'s dictionary themselves', node=pp[0], kind='prebuilt-copy')
-    chk.ob('PROV-raw-inputs-untouched', rc if rc is not None else oc, rc is not None, 'the rebuild creates a new dict at every nesting level (values themselves are shared)',
-           kind='recursive-rebuild')
+    nested_ok = rc is not None or nested_mappings_copied_before_recursion(chk)
+    chk.ob('PROV-raw-inputs-untouched', rc if rc is not None else oc, nested_ok, 'below the top level nothing of the raw inputs is assigned into either: the rebuild creates a new dict at every '
+           'nesting level, or pre_process copies every nested mapping before it recurses into it (values themselves are shared)', kind='recursive-rebuild')
     stored = [n for n in ast.walk(oc.node) if isinstance(n, ast.Assign) and norm(n.targets[0]) == 'self._parsed_inputs']
     chk.ob('PROV-raw-inputs-untouched', oc, len(stored) == 1 and stored[0].value is pp[0], 'the parsed inputs are what pre_process returns', kind='parsed-from-pre-process')
     init = prog.func('processes.Process.__init__')
